@@ -672,6 +672,7 @@ func c05ClientHello(r *VRand, sni string) []byte {
 func c05DnsFrame(r *VRand, response bool, name string) []byte {
 	m := new(dnsmessage.Msg)
 	m.SetQuestion(dnsmessage.Fqdn(name), dnsmessage.TypeA)
+	m.Id = uint16(r.Intn(65536)) // SetQuestion draws a random id: keep the run reproducible from the seed
 	m.Response = response
 	b, _ := m.Pack()
 	return append([]byte{byte(len(b) >> 8), byte(len(b))}, b...)
